@@ -77,9 +77,9 @@ Verify(msg, pk, sig) ==
       S == ScalarOfBytes(SubSeq(sig, 33, 64))
       dA == Decode(pk)
       h == ModL(WideOfBytes(Sha512(Rb \o pk \o msg)))
-  IN /\ dA[1]
+  IN /\ LtL(S)                                   \* S canonical (cheapest conjunct first; TLC short-circuits)
      /\ \E i \in 1..32 : pk[i] # 0
-     /\ LtL(S)
+     /\ dA[1]
      /\ Encode(PAdd(SMulB(S), SMul(h, PNeg(dA[2])))) = Rb
 \* Ed25519 public key -> X25519: u = (1 + y) / (1 - y), y = low 255 bits reduced
 EdToMontU(pk) == LET y == FromBytes(pk) IN ToBytes(FMul(FAdd(FOne, y), FInv(FSub(FOne, y))))
